@@ -35,7 +35,7 @@ def generate_cases(P, ctx):
         cases += got
     n_tlc = len(cases)
     if P.get("rand"):
-        extra = P["rand"](ctx["seed"], ctx["tier"])
+        extra = P["rand"](ctx["seed"], ctx["tier"], cases)
         for c in extra:
             c.setdefault("src", "rand")
         cases += extra
